@@ -71,6 +71,7 @@ THEOREMS = [
     "Verif.C09.estimate_invariant",
     "Verif.C09.gls_result_def",
     "Verif.C09.estimate_simple_time_scale",
+    "Verif.C09.optimalPointsF_atLeastTwo",
 ]
 TOL = 1e-9
 AUTO_OPS = ("optpts", "olsauto", "copyauto", "ensolsauto", "optraw")  # max_lag=None: determine_optimal_points and what is built on it
